@@ -20,7 +20,11 @@ def gen_session(args) -> Dict[str, Any]:
     r = rng(seed, "c04sess", tidn)
     work = tempfile.mkdtemp(prefix="c04s_", dir=workdir)
     try:
-        s = Session(os.path.join(work, "s"))
+        # every other session: a state that has not booted yet (the first turn runs the boot hook on the empty directory; it
+        # must never run again, whichever agent takes a turn) and snapshots on every third turn only, so most turns start
+        # from a version that the newest snapshot on disk does not hold
+        alt = bool(tidn % 2)
+        s = Session(os.path.join(work, "s"), base_cfg=({"t4": {"snapshot_every_n_turns": 3}} if alt else {}), boot_loaded=not alt)
         ev: List[dict] = []
         prev_ver = 0
         for t in range(nturns):
@@ -36,7 +40,8 @@ def gen_session(args) -> Dict[str, Any]:
                 inp["refl_out"] = r.choice(["ok", "ok", "error", "timeout"])
                 if r.random() < 0.2:
                     inp["faults"] = [r.choice(["refl_write", "refl_log"])]
-            s.agent = r.choice(["A", "B"])
+            # (a third agent joins late: its first turn comes when snapshots exist that are older than the state)
+            s.agent = r.choice(["A", "B"] if t < (nturns * 3) // 5 else ["A", "B", "C", "C"])
             s.text = r.choice(["I like apple and banana", "cherry pie", "date", ""])
             o = s.run(inp)
             if o.get("skipped") or o["raised"]:
@@ -44,6 +49,8 @@ def gen_session(args) -> Dict[str, Any]:
                 break
             ver = int(o["ver"])
             ev.append({"inp": inp, "log": [x for x in o["log"] if x != "t3_filter"], "dver": ver - prev_ver, "refl_new": len(o["refl_new"]), "snap": bool(o["snap"])})
+            if alt:
+                ev[-1].update({"cad": 3, "turn": int(s.turn)})
             prev_ver = ver
         return {"tid": tidn, "ev": ev}
     finally:
